@@ -73,6 +73,7 @@ fn main() {
         "C01" => c01::run(&args),
         "C02" => c02::run(&args),
         "C03" => c03::run(&args),
+        "C03DBG" => c03::run_debug_child(&args),
         "C04" => c04::run(&args),
         "C05" => c05::run(&args),
         "C06" => c06::run(&args),
